@@ -194,7 +194,7 @@ EXTRAS = {
             "validate": 0.03, "get": 0.03, "clear": 0.003},
     "C06": {"intro": 0.06, "clear": 0.006},
     "C10": {"checked": 0.25, "validate": 0.03, "clear": 0.003},
-    "C11": {"getmut": 0.06, "clear": 0.006, "get": 0.03},
+    "C11": {"getmut": 0.06, "clear": 0.006, "get": 0.03, "checked": 0.08},
 }
 
 
@@ -529,6 +529,19 @@ def gen_c15(seed, shard, n_hist, tier):
         h.add("V")
         h.add("Q")
         h.add("L")
+        # "a later safe call" includes the mutators: removals and insertions aimed at the damaged region and
+        # elsewhere (merges / borrows / splits next to a freed, emptied or mis-linked node). The model does not
+        # answer for mutators on raw heaps (UNSUPPORTED ends the comparison of the history); the assertion
+        # hooks in the unchecked accessors judge the implementation.
+        for _ in range(rng.choice([2, 4, 6])):
+            r = rng.random()
+            z = rng.choice([p * 2, p * 2 + 1, p * 2 + 2, p * 2 + 3, rng.randrange(U), rng.randrange(U)]) if r < 0.8 else rng.randrange(-3, U + 3)
+            if rng.random() < 0.7:
+                h.add(f"R {z}")
+            else:
+                h.add(f"I {z} {h.sid} {h.sid * 10}")
+                h.sid += 1
+        h.add("IT items,fast 0:50 1:50")
         out.append(h)
     return out
 
